@@ -287,6 +287,10 @@ def big_cmds(rng, tier):
                 items = [{"size": sz, "kind": kind, "flush": True}, {"size": 10, "kind": "text"}, {"size": max(1, sz // 3), "kind": kind}]
                 cmds.append({"op": "big_roundtrip", "id": len(cmds), "codec": cd, "approx": rng.choice([1, 64 * 1024, 10 ** 7]), "items": items,
                              "seed": rng.randrange(1 << 30), "reader": readers[(k + len(cmds)) % len(readers)]})
+        # data that compresses extremely well (a megabyte of zeros and more in one block: ratios far beyond 1000:1)
+        for sz in ([1 << 20] if tier == "quick" else [1 << 20, 3 << 20]):
+            items = [{"size": sz, "kind": "zeros"}, {"size": sz // 2, "kind": "zeros"}, {"size": 5, "kind": "text"}]
+            cmds.append({"op": "big_roundtrip", "id": len(cmds), "codec": cd, "approx": 10 ** 8, "items": items, "seed": 1, "reader": readers[len(cmds) % len(readers)]})
         # many small items whose total sits on the uncompressed buffer boundaries
         for total in ([8192, 32768] if tier == "quick" else [8191, 8192, 8193, 32767, 32768, 32769, 65536]):
             n = 16
